@@ -30,13 +30,21 @@ def html_hostile_strings(seed):
                 not isinstance(dic[item], typ):
             raise SystemExit(1)
         return dic[item]
-    cmd = types.SimpleNamespace(context=2, link=True)
+    # the real init(vars) with the vars of the script's own start-up code
+    # (props/shellenv.py); by hand only as a fallback
+    from props import shellenv
+    v = shellenv.init_report_module(gh, ['--output', 'html', 'f.tex'],
+                                    json_get=jget, context=2, link=True)
+    cmd = v.cmdline if v is not None else types.SimpleNamespace(
+        context=2, link=True)
     for m_ in (gh, ut):
         m_.json_get = jget
         m_.cmdline = cmd
-    gh.highlight_style = 'h'
-    gh.highlight_style_unsure = 'u'
-    gh.number_style = 'n'
+    if v is None:
+        gh.highlight_style = 'h'
+        gh.number_style = 'n'
+    if not hasattr(gh, 'highlight_style_unsure'):
+        gh.highlight_style_unsure = 'u'     # never set by init (dead code)
     tex = 'This isx a test.\nSecond line.\n'
     charmap = list(range(1, len(tex) + 1))
     hostile = ['m', 'a\nb', '<br>\n', '"', '&<>', '']
